@@ -58,6 +58,7 @@ def gen_file_spec(tape, label="file", kinds=None):
     kinds = kinds or KINDS
     kind = kinds[tape.draw(len(kinds), f"{label}.kind")]
     spec = {"kind": kind}
+    spec["omit_defaults"] = tape.chance(1, 3, f"{label}.omitdefaults")
     spec["lsb_form"] = ["bool_array", "bool_list", "int_list", "uint8_array", "int64_array"][
         tape.weighted([3, 1, 1, 1, 1], f"{label}.lsbform")]
     if kind.startswith("sample_"):
@@ -111,7 +112,7 @@ def gen_file_spec(tape, label="file", kinds=None):
     return spec
 
 
-READER_ONLY_KEYS = ("lsb", "lsb_form", "sigtype", "intensity", "squeeze")
+READER_ONLY_KEYS = ("lsb", "lsb_form", "sigtype", "intensity", "squeeze", "omit_defaults")
 
 
 def _hash(spec):
@@ -225,6 +226,8 @@ def reader_spec(spec):
     rs = _reader_spec(spec)
     if rs["cls"] == "BasebandReader" and rs.get("lsb") == "mask":
         rs["lsb_form"] = spec.get("lsb_form", "bool_array")
+    if rs["cls"] == "BasebandReader" and spec.get("omit_defaults"):
+        rs["omit_defaults"] = True
     return rs
 
 
@@ -314,8 +317,14 @@ def open_reader(pb, rs):
         st = pb.Signal
     if rs.get("intensity"):
         kw["intensity"] = True
+    lsb = lsb_value(rs, as_given=True)
+    if lsb is False and rs.get("omit_defaults"):
+        # rely on the documented defaults (lower_sideband=False, signal_type=Signal)
+        if st is pb.Signal and not skw:
+            return pb.readers.BasebandReader(name, **kw)
+        return pb.readers.BasebandReader(name, signal_type=st, signal_kwargs=skw, **kw)
     return pb.readers.BasebandReader(name, signal_type=st, signal_kwargs=skw,
-                                     lower_sideband=lsb_value(rs, as_given=True), **kw)
+                                     lower_sideband=lsb, **kw)
 
 
 # ---------------------------------------------------------------------------
